@@ -16,7 +16,7 @@ import glob
 import os
 import re
 from collections import Counter
-from .common import walk, src, strip, AnchorError, load_table, REPO, owner_root
+from .common import walk, src, strip, AnchorError, load_table, REPO, owner_root, idents_in
 from . import hashorder
 
 NONDET = [
@@ -146,6 +146,48 @@ def run(chk, facts):
             why = f"Hash uses {sorted(hashed)}, Eq compares {sorted(compared)}"
         chk.ob("R-C12-3", f"{mod}::{ty}", ok, f"{mod}::{ty}: {why}" + ("" if ok else " - values that compare equal can hash differently: set membership becomes unpredictable"))
     chk.floor("R-C12-3", pairs, 6, "manual Hash implementations")
+
+    # ---------------- R-C12-8 ----------------
+    # sorting is what makes hash-ordered data deterministic, and a stable sort leaves elements that compare Equal in their incoming (hash)
+    # order: a hand-written Ord must therefore distinguish whatever Eq distinguishes.  For every manual `impl Ord` / `impl PartialOrd`:
+    # the fields of self that `cmp` reads cover the fields that `eq` compares (all fields when Eq is derived), and nothing projects
+    # the compared values onto a part of them (`.map(|n| &n.variant)`, `_by_key(..)`) before they are compared
+    chk.rule("R-C12-8", "manual Ord is at least as fine as Eq: compared fields cover the Eq fields, no projection before comparing")
+    n_ord = 0
+    eq_fields = {}
+    for im in syn.impls:
+        tr = (im.get("trait") or "").split("<")[0].strip()
+        if tr == "PartialEq" and not any("automatically_derived" in a for a in im.get("attrs", [])):
+            efn = [i for i in im["items"] if i.get("k") == "fn" and i["name"] == "eq"]
+            if efn:
+                eq_fields[(im["mod"], im["self_ty"])] = _self_fields(efn[0]["body"])
+    for im in syn.impls:
+        tr = (im.get("trait") or "").split("<")[0].strip()
+        if tr not in ("Ord", "PartialOrd") or any("automatically_derived" in a for a in im.get("attrs", [])):
+            continue
+        fn_ = [i for i in im["items"] if i.get("k") == "fn" and i["name"] in ("cmp", "partial_cmp")]
+        if not fn_:
+            continue
+        body = fn_[0]["body"]
+        # PartialOrd that only delegates to Ord (`Some(self.cmp(other))`) is judged through the Ord impl
+        if tr == "PartialOrd" and "self.cmp(other)" in src(body, -30).replace(" ", ""):
+            continue
+        n_ord += 1
+        key = (im["mod"], im["self_ty"])
+        st = syn.structs.get(f"{im['mod']}::{im['self_ty']}") or syn.structs.get(im["self_ty"])
+        all_fields = {n_ for n_, _ in st["fields"]} if st else set()
+        need = eq_fields.get(key, all_fields)
+        read = _self_fields(body)
+        missing = sorted(need - read)
+        proj = [src(n, -30)[:60] for n in walk(body) if n.get("k") == "mcall" and n["m"] in ("map", "filter", "filter_map", "flat_map", "sorted_by_key", "sort_by_key", "take", "skip", "first", "last", "next")
+                and "self" in idents_in(n["recv"])]
+        ok = not missing and not proj
+        chk.ob("R-C12-8", f"{im['mod']}::{im['self_ty']}|{tr}", ok,
+               f"{im['self_ty']}: {tr} reads {sorted(read)} - everything Eq compares" if ok else
+               f"{im['self_ty']}: {tr} is coarser than Eq (" + (f"does not look at {missing}" if missing else f"compares a projection: `{proj[0]}`") +
+               "): values that are different can compare Equal, a stable sort leaves them in hash order, and what is emitted from the sorted sequence differs between runs",
+               facts.loc_of(fn_[0]) if hasattr(facts, "loc_of") else None)
+    chk.floor("R-C12-8", n_ord, 2, "manual Ord / PartialOrd implementations")
 
     # ---------------- R-C12-4 ----------------
     for s in mir.statics:
